@@ -23,8 +23,7 @@ func c16Run(c *runner.Ctx) {
 		w, err = gen.GenWorld(c.R, c.TmpDir, fmt.Sprintf("w%d", c.Idx), gen.WorldOpts{MaxDocs: 140})
 	}
 	c.Inc("shape."+shape, 1)
-	if err != nil {
-		c.Note("world construction failed (C01/C02/C04's business): " + firstLine(err.Error()))
+	if w = usable(c, w, err); w == nil {
 		return
 	}
 	defer w.Close()
